@@ -92,7 +92,7 @@ Returned(text) ==
 \*   C11  after an update-engine call (the updated context behaves like one created with that configuration).
 Fresh == IF "fresh" \in DOMAIN E THEN E.fresh ELSE "skip"
 ShadowOn == \/ Focus = "ALL"
-            \/ (Focus \in {"C05", "C09", "C03"} /\ Phon)     \* (C03: what holds for the lists of a brand-new context - MC_Split - holds for equal lists)
+            \/ (Focus \in {"C05", "C09", "C03", "C07", "C08"} /\ Phon)     \* (C03: what holds for the lists of a brand-new context - MC_Split - holds for equal lists)
             \/ (Focus = "C06" /\ ended)
             \/ Focus = "C18"      \* (what the table walk establishes for brand-new contexts holds for equal lists of used ones)
             \/ (Focus = "C15" /\ ~Phon)   \* (likewise what the prefix corpus establishes for the fixed-layout lists)
